@@ -259,3 +259,8 @@ def run(ctx):
     # library caller: the authentication failure ERR uses the constant kind ER_ACCESS_DENIED_ERROR
     callers = prog.callers_of(r"^writers::write_err$")
     ctx.floor("C13.entry-points", "callers of the ERR writer", len([1 for b, _, _ in callers if "::tests::" not in b.path]), 4)
+
+    # every outbound clause of this property presupposes a faithful framing layer (one transport write site that sends the
+    # whole pending packet, in order, with a correct header): C04's framing rules are evaluated here as well
+    import rules.C04 as C04
+    C04.run(ctx, configs=["tls"])
